@@ -236,6 +236,8 @@ def c15_runs(tier):
     for n in (0, 1, 2):
         for w in (1, 0):
             runs.append(McRun(BIN, 'fe_batch', dict(n=n, wait=w, **{'yield': 1}), bound=0, opts=ONE, budget=40))
+            if n:  # the same calls made from inside a task of the pool (the caller is a worker with a ring index)
+                runs.append(McRun(BIN, 'fe_batch', dict(n=n, wait=w, nest=1, **{'yield': 1}), bound=0, opts=ONE, budget=40))
     A = dict(cont=['v', 'l', 'f'], cnt=[3, 4], wait=[1, 0], api=['n', 'e'])
     runs.append(one('fe_one', 1, n=1, mt=[2, 3] if q else [0, 1, 2, 3], budget=300, **A))
     runs.append(one('fe_one', 1, n=2, cont=['v', 'l', 'f'], cnt=3, mt=[2, 3], wait=[1, 0], api='n', opts=ONE if q else None, budget=400))
@@ -252,13 +254,13 @@ def c15_runs(tier):
 reg('C15', level='model_checking', runs=c15_runs, quick_budget_s=200, thorough_budget_s=1200,
     technique='the real for_each / for_each_n under the dmc scheduler with per-element counters: all small inputs on the default schedule, schedule exploration for n in {3,4}',
     level_text='std::vector (random access), std::list (bidirectional), std::forward_list (forward) x n in 0..6 (of n+2 elements) x maxThreads in {0,1,2,3} x wait x '
-               'pools of 0/1/2 threads x {for_each, for_each_n}: every combination on the default schedule; n in {3,4}: every schedule with <=1 preemption '
+               'pools of 0/1/2 threads x {for_each, for_each_n} x {called from an external thread, called from inside a task of the pool}: every combination on the default schedule; n in {3,4}: every schedule with <=1 preemption '
                '(2 thorough on two shapes) and every order of the applications (free switches). Oracle: each of the first n elements visited exactly once, the '
                'others never; no application running or starting after for_each (wait=true) / wait() (wait=false) returned; a crash (SIGFPE) is a violation.',
     level_note='',
     design_ref='DESIGN.md section 4, C15', assumptions=MC_ASSUME,
     rule='fe_batch: one evaluation = one execution = all 168 calls of one (pool size, wait) pair; fe_one: one evaluation = one execution of one call under one schedule',
-    guards=[need_cover('n_zero', 'applied', 'applied_on_worker', 'concurrent_applications', 'returned_before_wait'), need_outcomes(6)])
+    guards=[need_cover('n_zero', 'applied', 'applied_on_worker', 'called_from_pool_thread', 'concurrent_applications', 'returned_before_wait'), need_outcomes(6)])
 
 
 # ---------------------------------------------------------------------------------------------- C48
@@ -272,6 +274,8 @@ def c48_runs(tier):
     runs.append(one('pf_one', 1, type='i32', check=48, n=3, mt=[2, 3, 4], mode=['s', 'c2'], wait=[1, 0], g=2 if q else [1, 2], size=7, yield_=1, opts=ONE, budget=300))
     runs.append(one('pf_one', 1, type='i32', check=48, n=3, mt=[2, 3, 4], mode='a', wait=[1, 0], g=2 if q else [1, 2], size=7, yield_=1, opts=dict(ONE, spin_own=1), budget=300))
     runs.append(one('pf_state', 0, check=48, cont='v', n=2, mt=[1, 2, 3], mode=M, wait=[1, 0], g=2, size=7, yield_=1, budget=200))
+    # explicit chunk sizes on ranges no longer than the pool (+ the caller): the thread count is re-derived from the item count there
+    runs.append(one('pf_state', 0, check=48, cont='v', n=3, mt=[2, 3], mode=['c1', 'c2'], wait=[1, 0], g=1, size=[3, 4], yield_=1, budget=200))
     # every order of the applications: for_each
     runs.append(one('fe_one', 0, check=48, n=[1, 2], cont=['v', 'l', 'f'], cnt=[4, 7], mt=[0, 1, 2, 3], wait=[1, 0], api='n', yield_=1, budget=200))
     runs.append(one('fe_one', 1, check=48, n=3, cont=['v', 'f'], cnt=7, mt=[2, 3, 4], wait=[1, 0], api='n', yield_=1, opts=ONE, budget=300))
